@@ -108,6 +108,9 @@ pub enum Foreign {
     WrongKind,
     /// the user calls `Receive{sender: victim, amount, Bond}` itself, posing as a cw20 contract
     FakeReceive,
+    /// cw20 config: Bond with a bank coin whose denom string is the configured cw20 contract's address
+    /// (a different token that merely shares the name); native config: falls back to WrongKind
+    NamedLikeToken,
 }
 
 /// the acting user, explicit or chosen by the state at run time (monotone map of the
@@ -246,6 +249,7 @@ fn foreign_kind() -> impl Strategy<Value = Foreign> {
         Just(Foreign::OtherCw20),
         Just(Foreign::WrongKind),
         Just(Foreign::FakeReceive),
+        Just(Foreign::NamedLikeToken),
     ]
 }
 
@@ -902,6 +906,7 @@ pub fn run_case(prop: &str, case: &Case, ctx: &mut CaseCtx) -> Result<(), Violat
                     Foreign::WrongDenom if !native_cfg => Foreign::WrongKind,
                     Foreign::TwoCoins if !native_cfg => Foreign::WrongKind,
                     Foreign::TwoCoins if pre.bal[u] == 0 => Foreign::WrongDenom,
+                    Foreign::NamedLikeToken if native_cfg => Foreign::WrongKind,
                     k => *k,
                 };
                 ctx.count(&format!("foreign_{:?}", eff));
@@ -915,6 +920,11 @@ pub fn run_case(prop: &str, case: &Case, ctx: &mut CaseCtx) -> Result<(), Violat
                         } else {
                             w.exec(&user, &stake, &ExecuteMsg::Bond {}, &[coin(a, DENOM)])
                         }
+                    }
+                    Foreign::NamedLikeToken => {
+                        let denom = w.main20.clone().map(|a| a.to_string()).unwrap_or_default();
+                        w.app.sudo(cw_multi_test::SudoMsg::Bank(cw_multi_test::BankSudo::Mint { to_address: user.to_string(), amount: vec![coin(a, denom.clone())] })).expect("mint");
+                        w.exec(&user, &stake, &ExecuteMsg::Bond {}, &[coin(a, denom)])
                     }
                     Foreign::FakeReceive => {
                         let vic = w.users[*victim as usize % n].to_string();
@@ -1284,7 +1294,7 @@ pub fn decode_case(_prop: &str, u: &mut arbitrary::Unstructured) -> Case {
             23..=25 => ops.push(Op::AdvanceToRelease { by: d_who(u, Who::WithClaims), d: d_pm1(u) }),
             26..=28 => {
                 let by = d_user(u);
-                let kind = [Foreign::WrongDenom, Foreign::TwoCoins, Foreign::OtherCw20, Foreign::WrongKind, Foreign::FakeReceive][arb_below(u, 5)];
+                let kind = [Foreign::WrongDenom, Foreign::TwoCoins, Foreign::OtherCw20, Foreign::WrongKind, Foreign::FakeReceive, Foreign::NamedLikeToken][arb_below(u, 6)];
                 let amt = if arb_bool(u, 3, 4) { 1 + u.arbitrary::<u16>().unwrap_or(0) as u128 % 999 } else { arb_u128(u) };
                 ops.push(Op::Foreign { by, kind, amt: N(amt), victim: d_user(u) });
             }
